@@ -168,3 +168,46 @@ PLANS["C12"] = {
     "assumptions": ["acceptable error codes per entry come from the names in the IMB_ERR enum; where two names "
                     "equally describe the constraint both are accepted"],
 }
+
+
+def _c08(tier, seed):
+    return [
+        {"engine": "nver", "args": [], "cases": 8000 if tier == "quick" else 400000, "shards": N, "timeout": 3000},
+        # valgrind's synthetic CPU has no AVX512/SHA-NI/GFNI/VAES: a real "older CPU"
+        {"engine": "nver", "args": ["--valgrind"], "cases": 48 if tier == "quick" else 1600, "shards": N,
+         "prefix": ["valgrind", "-q", "--error-exitcode=9"], "timeout": 3000},
+    ]
+
+
+PLANS["C08"] = {
+    "level": "exploration",
+    "runs": _c08,
+    "cov_class": "C08",
+    "rule": ("cases = work items (valid ones of every suite family incl. chained, plus items carrying one "
+             "catalogue violation) each executed on all 16 (init_mb_mgr_{sse,avx2,avx512,auto} x flags) "
+             "configurations; status, error code and a fingerprint of output/tag/source image must be identical on "
+             "all of them and valid outputs equal the reference; every third cipher item is encrypted on one "
+             "configuration and decrypted on another; five CPU models are emulated with the feature-mask hook "
+             "(init must fail with IMB_ERR_MISSING_CPUFLAGS_INIT_MGR for unsupported architectures, auto must pick "
+             "the best supported one, the selected variant must produce reference results); the same stream runs "
+             "under valgrind, whose CPU lacks AVX512/SHA-NI/GFNI/VAES. distinct = distinct (cipher, hash, "
+             "violation or valid, status, errno) tuples + configuration pairs + CPU-model outcomes."),
+    "floors": {"quick": {"items": 6000, "invalid_items": 1500, "cross_config_decrypts": 500, "cpu_models": 5}},
+    "assumptions": ["7 distinct variants are reachable on this host (recorded in variants_exercised)"],
+}
+PLANS["C09"] = {
+    "level": "exploration",
+    "runs": _simple("entry", 12000, 600000),
+    "cov_class": "C09",
+    "rule": ("cases = work items of every suite, each run through: submit_job, submit_job_nocheck, async "
+             "submit_burst / submit_burst_nocheck (1..17 jobs, item at a random position among decoys), "
+             "synchronous cipher/hash/AEAD bursts (1..17 jobs, checked and no-check), and the direct functions "
+             "(GCM one-shot and init/update/finalize, GMAC, GHASH, SHA one-shot, CRC function pointers, "
+             "ChaCha20-Poly1305 init/update/finalize, ZUC EEA3 1/4/n and EIA3 1/n buffers, SNOW3G f8 "
+             "1/bit/2/4/8/n/multikey and f9, KASUMI f8 1/bit/2/3/4/n and f9, single-block CFB); every result is "
+             "compared with the reference. distinct = distinct (variant, entry point, cipher, hash, n / length "
+             "class) tuples."),
+    "floors": {"quick": {"work_items": 8000, "entry_point_runs": 40000}},
+    "assumptions": ["QUIC helpers, HEC and SHA one-block entry points are exercised by the keys/abi engines, not "
+                    "compared here", "SNOW3G/KASUMI n-buffer calls use at most 16 packets (documented limit)"],
+}
